@@ -69,9 +69,10 @@ theorem rxcLoop_calls (cfg : DevCfg) (rf : RfConfig) (mp d : Nat) (fuel : Nat) (
         have hcfg := macHandleRx_c_cfg _ _ _ _ _ _ hrx
         cases o with
         | none =>
-          simp only [pure, Except.pure, Except.ok.injEq] at hk
-          subst hk
-          exact ⟨CallsSince.one rfl hrc, hcfg⟩
+          simp only [DevRun.deliver] at hk
+          obtain ⟨h1, h2⟩ := ih _ hk
+          exact ⟨(CallsSince.one (r' := ⟨m, rest, Call.rxContinuous :: r.calls, r.downlinks, r.dlCap⟩) rfl hrc).trans h1,
+            by rw [h2]; exact hcfg⟩
         | some o =>
           simp only [deliver_some] at hk
           obtain ⟨h1, h2⟩ := ih _ hk
